@@ -51,6 +51,10 @@ int run(const Args& a, Recorder& rec) {
                 for (double s : scal) { rec.enum_transitions++; Node& A = all[x]; add_node(A.op * MelemType(s), Mat(A.ref * s), "(" + A.expr + ")*" + std::to_string(s), d, own); }
                 for (double s : addc) { rec.enum_transitions++; Node& A = all[x]; add_node(A.op + MelemType(s), Mat(A.ref + s * Mat::Identity(D, D)), "(" + A.expr + ")+" + std::to_string(s), d, own); }
                 { rec.enum_transitions++; Node& A = all[x]; add_node(-A.op, Mat(-A.ref), "-(" + A.expr + ")", d, own); }
+                for (double s : addc) { rec.enum_transitions += 3; Node A = all[x];
+                    add_node(A.op - MelemType(s), Mat(A.ref - s * Mat::Identity(D, D)), "(" + A.expr + ")-" + std::to_string(s), d, own);
+                    add_node(MelemType(s) - A.op, Mat(s * Mat::Identity(D, D) - A.ref), std::to_string(s) + "-(" + A.expr + ")", d, own);
+                    { Operator t = A.op; t -= MelemType(s); t += MelemType(2 * s); t -= MelemType(s); add_node(t, A.ref, "(" + A.expr + ") -=" + std::to_string(s) + " +=" + std::to_string(2 * s) + " -=" + std::to_string(s), d, own); } }
                 for (size_t y = 0; y < small_hi; ++y) for (int order = 0; order < 2; ++order) {
                     if (order == 1 && x < small_hi) continue;      // both orders already covered when x itself is a partner
                     Operator A = order ? all[y].op : all[x].op, B = order ? all[x].op : all[y].op; Mat a_ = order ? all[y].ref : all[x].ref, b_ = order ? all[x].ref : all[y].ref;
